@@ -4,10 +4,6 @@ From Coq Require Import List Bool Arith Ascii String.
 From Serif Require Import Base.PyVal Model.Naming.
 Import ListNotations.
 
-(* Does the implementation's __dir__ store the map it builds?  On the current tree: no
-   (finding NEW-C17-1).  Set to [true] once candidate-fixes/new/c17-dir-refresh.patch is in. *)
-Definition impl_dir_stores : bool := false.
-
 (* short constructors for the case files *)
 Definition ss (l : list string) : list str := map s l.
 Definition nm (id : nat) (t : string) : cname := mkN id (Some (s t)).   (* a named column *)
@@ -49,6 +45,10 @@ Inductive case :=
 
 Section Check.
 Variable reserved : list str.
+(* Which of the two modelled __dir__ variants the tree implements: does __dir__ store the map it
+   builds?  (On the pinned tree it does not: finding NEW-C17-1.)  Probed once by the harness,
+   then validated by every history case that calls dir(). *)
+Variable impl_dir_stores : bool.
 
 Definition texts (ns : list cname) : list oname := map ntext ns.
 
